@@ -1,9 +1,9 @@
 SPECIFICATION ISpec
 CONSTANTS
-  Procs = {1,2,3}
-  Objs = {1}
+  Procs = {1,2}
+  Objs = {1,2}
   Keys = {1}
   MaxCalls = 1
-  Variant = "nogoto"
-INVARIANTS FnStartOK
+  Variant = "shared"
+INVARIANTS WaitOK
 CHECK_DEADLOCK TRUE
